@@ -41,6 +41,11 @@ class C13Irrigation(Monitor):
     def before(self, name, bound, args, kwargs):
         if name == "irrigation":
             self.call = {"in": dict(bound) if bound is not None else None}
+            # yesterday's potential soil evaporation and transpiration, as handed to today's depletion estimate, against the values the
+            # flux table reported for yesterday (same season, yesterday in season)
+            prev = getattr(self, "prev_pot", None)
+            if bound is not None and prev is not None and "NewCond_Epot" in bound and "NewCond_Tpot" in bound:
+                self.call["pot"] = {"Epot": float(bound["NewCond_Epot"]), "Tpot": float(bound["NewCond_Tpot"]), "EsPot_reported_yesterday": prev[0], "TrPot_reported_yesterday": prev[1]}
             try:
                 self.call["ref"] = ref_depletion(bound) if bound is not None else None
             except Exception as e:  # noqa: BLE001 - the reference must never break the run
@@ -152,6 +157,13 @@ class C13Irrigation(Monitor):
                     ctx.violate("no-irrigation-outside-season", t, observed={"date": str(day.date()), "IrrDay": irr, "reported_in_season": bool(post.gs)},
                                 expected="a day outside every planting date .. latest harvest date window is off-season and gets no water")
                     return
+        pot, prev_season = (call or {}).get("pot"), getattr(self, "prev_pot_season", None)
+        self.prev_pot = (float(f[FX["EsPot"]]), float(f[FX["TrPot"]])) if post.gs else None
+        self.prev_pot_season = post.season if post.gs else None
+        if post.gs and pot is not None and dap > 1 and prev_season == post.season and self.method in (1, 2):
+            ctx.hit("yesterdays_potential_rates_checked")
+            if abs(pot["Epot"] - pot["EsPot_reported_yesterday"]) > 1e-9 or abs(pot["Tpot"] - pot["TrPot_reported_yesterday"]) > 1e-9:
+                ctx.violate("depletion-estimate", t, observed=pot, expected="the estimate adds the potential soil evaporation and transpiration reported for yesterday")
         if not post.gs:
             if irr != 0:
                 ctx.violate("no-irrigation-outside-season", t, observed=irr, expected=0)
